@@ -114,7 +114,7 @@ func (e *engine) sweepContract(fn *ssa.Function) *funcContract {
 	}
 	path := pkg.Pkg.Path()
 	gs := e.guardsOf(path)
-	if len(gs) == 0 {
+	if len(gs) == 0 && !hasSyncLockCall(fn) {
 		return nil
 	}
 	name := fn.RelString(pkg.Pkg)
@@ -128,7 +128,13 @@ func (e *engine) sweepContract(fn *ssa.Function) *funcContract {
 			fc.ghosts = append(fc.ghosts, ghostDecl{name: n, typ: "map", init: "?"})
 		}
 	}
+	bal := map[string]bool{}
+	balGhostsOf(fn, bal)
+	for _, n := range sortedKeys(bal) {
+		fc.ghosts = append(fc.ghosts, ghostDecl{name: n, typ: "map", init: "?"})
+	}
 	if real := e.contractFor(fn); real != nil {
+		fc.lockHandoff = real.lockHandoff
 		fc.holds = real.holds
 		fc.readsUnlocked = real.readsUnlocked
 		fc.setupOnly = real.setupOnly
@@ -174,7 +180,10 @@ func (e *engine) sweepTargets() []*ssa.Function {
 		for p := f; pkg == nil && p != nil; p = p.Parent() {
 			pkg = p.Pkg
 		}
-		if pkg == nil || !pk[pkg.Pkg.Path()] || f.Blocks == nil || f.Synthetic != "" {
+		if pkg == nil || f.Blocks == nil || f.Synthetic != "" {
+			continue
+		}
+		if !pk[pkg.Pkg.Path()] && !(e.isTargetPkg(pkg.Pkg.Path()) && hasSyncLockCall(f)) {
 			continue
 		}
 		if strings.HasSuffix(e.prog.Fset.Position(f.Pos()).Filename, "_test.go") {
@@ -183,7 +192,7 @@ func (e *engine) sweepTargets() []*ssa.Function {
 		if f.Parent() != nil && runsInlineInParent(e, f) {
 			continue // checked where it runs: inside its parent, with the parent's lock state
 		}
-		if e.touchesGuarded(f) || spawnsGoroutineClosure(f) {
+		if e.touchesGuarded(f) || spawnsGoroutineClosure(f) || hasSyncLockCall(f) {
 			keys = append(keys, k)
 		}
 	}
@@ -267,6 +276,7 @@ func (v *vc) onLockCall(fr *frame, st *state, name string, c *ssa.CallCommon) {
 	if v.fc == nil || !v.fc.sweep || len(c.Args) == 0 {
 		return
 	}
+	v.onBalanceCall(fr, st, name, c)
 	g, fa := v.eng.lockGhostOfArg(c.Args[0])
 	if g == "" {
 		return
